@@ -266,6 +266,9 @@ func (e *engine) exec1(k *kit, ds *directState, f []string) (res string) {
 			return "bad-op"
 		}
 		p := k.peers[peerID(r, st)]
+		if p == nil {
+			return "ok"
+		}
 		k.runOn(st, func() { _ = p.Campaign() })
 		k.collect()
 		return "ok"
@@ -275,6 +278,9 @@ func (e *engine) exec1(k *kit, ds *directState, f []string) (res string) {
 			return "bad-op"
 		}
 		p := k.peers[peerID(r, st)]
+		if p == nil {
+			return "ok"
+		}
 		k.runOn(st, func() { _ = p.Tick() })
 		k.collect()
 		return "ok"
@@ -396,6 +402,34 @@ func (e *engine) exec1(k *kit, ds *directState, f []string) (res string) {
 			return "bad-op"
 		}
 		k.openGate(s)
+		return "ok"
+	case "c.proposeP": // c.proposeP store region peerid : a write whose header already names a peer
+		r := uint64(arg(f, 2))
+		if !validStore(s) || !validRegion(r) {
+			return "bad-op"
+		}
+		tag := len(k.calls) + 1
+		req := k.writeReq(r, tag)
+		req.Header.PeerId = uint64(arg(f, 3))
+		k.launch("propose", s, r, tag, req, "1 1 1 1", true)
+		return "ok"
+	case "c.admin": // c.admin store region : an admin entry through the region's raft log
+		r := uint64(arg(f, 2))
+		if !validStore(s) || !validRegion(r) {
+			return "bad-op"
+		}
+		k.admin(s, r)
+		return "ok"
+	case "c.stopread": // c.stopread store region [n] : n reads inside LinearizableRead's flush, then StopPeer
+		r := uint64(arg(f, 2))
+		if !validStore(s) || !validRegion(r) {
+			return "bad-op"
+		}
+		n := arg(f, 3)
+		if n < 1 || n > 64 {
+			n = 20
+		}
+		k.stopRead(s, r, n)
 		return "ok"
 	case "c.wait": // let every outstanding read run into its answer (ReadCommand gives up after 3 s)
 		for _, c := range k.calls {
